@@ -45,6 +45,18 @@ def r5(ctx, cfg):
     if f is None:
         return
     cf = cfg_of(f)
+    # Which spelling of the carry is this?  Three are recognised and then checked strictly: a scan over the indices or the bytes
+    # from the end (one `next()` loop), and `rposition` + indexed writes.  Anything else (say a per-position `map` over
+    # `enumerate()`) is a different algorithm for the same function: its arithmetic is NOT DECIDED here (DESIGN.md section 10) -
+    # recorded in the evidence, not reported as a violation, because the obligations below describe the recognised spellings,
+    # not the behaviour.
+    has_loop = any(t["callee"]["key"] in ("std::iter::Iterator::next", "std::iter::DoubleEndedIterator::next_back") for b, t in f.calls())
+    has_rpos = any(t["callee"]["name"] in ("index_mut", "fill") for b, t in f.calls())      # (a pivot search + writes at / behind it)
+    ctx.ob(R, key, "carry-spelling", True, "-", fn=f,
+           sample="recognised: %s" % ("scan loop" if has_loop else "rposition + indexed writes") if (has_loop or has_rpos) else
+           "NOT DECIDED: unrecognised spelling of the carry (no scan loop, no rposition + indexed writes)")
+    if not (has_loop or has_rpos):
+        return
     l = _ret_local(f)
     whole = [d for d in P.defs(f).get(l, []) if not d[3]["dst"]["p"]] if l is not None else []
     ok = len(whole) == 1 and is_param(P.call_origin(f, whole[0][3], whole[0][1]) if whole[0][0] == "call" else P.rvalue(f, whole[0][3]["rv"], (whole[0][1], whole[0][2])), "input")
@@ -79,6 +91,8 @@ def r5(ctx, cfg):
         form = _rposition_form(ctx, cfg, R, key, f, is_copy)
         if form is not None:
             return
+        ctx.ob(R, key, "scans-every-index-from-the-end", False, "indexed writes to the copy without a scan from the end or an rposition pivot", fn=f)
+        return
     ctx.ob(R, key, "scans-every-index-from-the-end", form is not None, "carry loop iterates %s (expected (0..input.len()).rev() or copy.iter_mut().rev())" % d, fn=f,
            sample="%s form: %s" % (form, d))
     if form is None:
@@ -374,6 +388,13 @@ def r3(ctx, cfg, R="C07.R3"):
                     # e.g. the exhausted / not exhausted edge of a scan over the namespace (`all(..)` written as a loop)
                     others.append(("bool", ("variant", (c[1],), True), c[2]))
             cells[tag].append((val, others))
+        if pname == "start" and len(cells[None]) == 1 and not cells["Some"] and not cells["None"]:
+            # `concat(namespace, start.unwrap_or_default())`: an absent start is the empty key, and namespace ++ "" is the namespace
+            v0 = peel(cells[None][0][0])
+            if _is_concat(v0, lambda x: is_param(x, "namespace"),
+                          lambda x: peel(x)[0] == "call" and peel(x)[1] == "std::option::Option::unwrap_or_default" and is_param(peel(x)[2][0], "start")) and not cells[None][0][1]:
+                cells = {"Some": [(("call", NH + "concat", (("param", 0, "namespace"), ("some", ("param", 0, "start"))), None, None), [])],
+                         "None": [(("param", 0, "namespace"), [])], None: []}
         ctx.ob(R, key, "%s-bound-defined-per-case" % pname, not cells[None] and len(cells["Some"]) == 1 and len(cells["None"]) >= 1,
                "%s bound has definitions outside the Some/None cases of `%s` (%s)" % (pname, pname, {k: len(v) for k, v in cells.items()}), fn=f,
                sample="Some: %d def, None: %d defs" % (len(cells["Some"]), len(cells["None"])))
@@ -426,7 +447,40 @@ def r3(ctx, cfg, R="C07.R3"):
     clos = [g for g in F.lexical(key) if g.kind == "closure" and (P.closure_use(g) or (None, None, {"callee": {"key": ""}}))[2]["callee"]["key"] == "std::iter::Iterator::map"]
     ok = len(clos) == 1
     guarded = False
-    if ok:
+    fm = [g for g in F.lexical(key) if g.kind == "closure" and (P.closure_use(g) or (None, None, {"callee": {"key": ""}}))[2]["callee"]["key"] == "std::iter::Iterator::filter_map"]
+    mapped_by = "std::iter::Iterator::map"
+    if not clos and len(fm) == 1:
+        # the same two steps in one: `.filter_map(|(k, v)| k.strip_prefix(prefix).map(|rest| (rest.to_vec(), v)))` - std's
+        # strip_prefix yields the rest of the key exactly when the key starts with the prefix
+        mapped_by = "std::iter::Iterator::filter_map"
+        g = fm[0]
+        use = P.closure_use(g)
+        src_full = P.call_args(use[0], use[2], use[1])[0]
+        src = peel(src_full)
+        ok = src[0] == "call" and src[1] == "cosmwasm_std::Storage::range"
+
+        def is_strip(x):
+            x = peel(x)
+            return x[0] == "call" and x[1].endswith("::strip_prefix") and len(x[2]) == 2 and is_param(x[2][1], "namespace") and \
+                contains(x[2][0], lambda y: y[0] == "field" and y[2] == "0" and peel(y[1])[0] == "bound" and peel(y[1])[1] == "elem")
+        somes, nones, others = [], [], []
+        for val, conds, site in q.value_cases(P, g, 0):
+            pv = peel(val)
+            if pv[0] == "agg" and pv[1].endswith("Option::Some"):
+                somes.append(peel(pv[2][0][1]))
+            elif pv[0] == "agg" and pv[1].endswith("Option::None") and any(c[0] == "variant_in" and c[2] == ("None",) and is_strip(c[1]) for e, c in conds):
+                nones.append(pv)
+            else:
+                others.append(pv)
+        ok = ok and len(somes) == 1 and not others and len(nones) >= 1
+        if ok:
+            tup = somes[0]
+            ok = tup[0] == "agg" and tup[1] == "tuple" and len(tup[2]) == 2
+            if ok:
+                k, v = peel(tup[2][0][1]), peel(tup[2][1][1])
+                ok = k[0] == "some" and is_strip(k[1]) and v[0] == "field" and v[2] == "1" and peel(v[1])[0] == "bound"
+        guarded = ok
+    elif ok:
         g = clos[0]
         use = P.closure_use(g)
         ok = use is not None and use[2]["callee"]["key"] == "std::iter::Iterator::map"
@@ -469,7 +523,7 @@ def r3(ctx, cfg, R="C07.R3"):
            "ending in 0xFF bytes a shorter foreign key (`fp` between `fo\\xff` and the bound `fp\\0`) is inside the base range - the view "
            "reads it and the slice panics", fn=f, sample="filter(|(k, _)| k.starts_with(&prefix)) before the trim")
     ret = P.ret(f)
-    ctx.ob(R, key, "returns-mapped-iterator", contains(ret, lambda x: x[0] == "call" and x[1] == "std::iter::Iterator::map"),
+    ctx.ob(R, key, "returns-mapped-iterator", contains(ret, lambda x: x[0] == "call" and x[1] == mapped_by),
            "range_with_prefix does not return the mapped iterator", fn=f, sample="Box::new(mapped)")
 
 
@@ -534,6 +588,22 @@ def r4(ctx, cfg):
     if f is not None:
         l = _ret_local(f)
         muts = P.mutations(f, l) if l is not None else []
+        if len(muts) != 2:
+            # the vector may be the accumulator of a fold / a by-value helper parameter: read the appends off the origin of the
+            # result (`init` | `init with {extend(..), extend(..)}`), each with the block it happens in
+            def vp0(x):
+                while x[0] == "vp":
+                    x = x[2]
+                return x
+            ro = vp0(P.ret(f))
+            cand = [vp0(x) for x in (ro[1] if ro[0] == "multi" else [ro]) if vp0(x)[0] == "upd"]
+            if len(cand) == 1:
+                ms = [m for pth, m in cand[0][2] if pth == ("&mut",) and m[0] == "mutby" and m[3][0] == f.key]
+                muts = []
+                for m in ms:
+                    tb = f.blocks[m[3][1]]["term"]
+                    if tb["k"] == "call" and tb["callee"]["name"] in ("extend_from_slice", "extend", "append"):
+                        muts.append((m[3][1], tb, 0))
         cf = cfg_of(f)
         ok = len(muts) == 2
         d = [t["callee"]["key"] for b, t, ai in muts]
@@ -576,7 +646,7 @@ def r4(ctx, cfg):
                 tt = f.blocks[sb]["term"]
                 if tt["k"] == "switch" and "discr_of" in tt:
                     so = peel(P.place(f, tt["discr_of"], (sb, "t")))
-                    if so[0] == "call" and so[1].endswith("TryFrom::try_from"):
+                    if contains(so, lambda x: x[0] == "call" and x[1].endswith("TryFrom::try_from")):
                         for e, v, n, tb in cf.switch_edges(sb):
                             if n == "Err" or (n is None and [x[2] for x in tt["targets"]] == ["Ok"]):
                                 err_edges.append(e)
